@@ -834,6 +834,53 @@ func TestCheck(t *testing.T) {
 	checkPieceSequences(r)
 	// (g) the protocols' own stream decoders
 	checkReadFrom(r)
+	// (h) the library's constructor for the plain-HTTP transport (HTTPV1) next
+	// to every other protocol: what the library encodes it decodes, and the
+	// other protocols are all there afterwards
+	for _, others := range [][]proto{{pBitswap}, {pGateway}, {gsProto(0, true, false)}, {unknownProto(0x0930, 5)}, {pBitswap, gsProto(1, false, true), pGateway}} {
+		key := "coll-with-HTTPV1|" + labels(others)
+		if !r.Mine(key) {
+			continue
+		}
+		r.Eval(key, true)
+		for _, first := range []bool{true, false} {
+			vals := []metadata.Protocol{}
+			if first {
+				vals = append(vals, metadata.HTTPV1())
+			}
+			for _, p := range others {
+				vals = append(vals, p.mk())
+			}
+			if !first {
+				vals = append(vals, metadata.HTTPV1())
+			}
+			md := mdCtx.New(vals...)
+			var enc []byte
+			var err error
+			if p, m := vp.Guard(func() { enc, err = md.MarshalBinary() }); p || err != nil {
+				r.Violation("encode:error-with-HTTPV1", key, fmt.Sprint(m, err), nil)
+				break
+			}
+			back := mdCtx.New()
+			if p, m := vp.Guard(func() { err = back.UnmarshalBinary(append([]byte(nil), enc...)) }); p || err != nil {
+				r.Violation("roundtrip:error:collection-with-HTTPV1", key, fmt.Sprintf("the library cannot decode its own encoding %x of [HTTPV1, %s]: %v %s", enc, labels(others), err, m), nil)
+				break
+			}
+			for _, p := range others {
+				g := back.Get(p.id)
+				wb, _ := p.mk().MarshalBinary()
+				if g == nil {
+					r.Violation("roundtrip:get-missing:collection-with-HTTPV1", key, fmt.Sprintf("Get(0x%x) is nil after the round trip of [HTTPV1, %s]", uint64(p.id), labels(others)), nil)
+					break
+				}
+				if gb, _ := g.MarshalBinary(); !bytes.Equal(gb, wb) {
+					r.Violation("roundtrip:get-differs:collection-with-HTTPV1", key, fmt.Sprintf("Get(0x%x) differs after the round trip of [HTTPV1, %s]", uint64(p.id), labels(others)), nil)
+					break
+				}
+			}
+		}
+		r.Outcome("with-HTTPV1-ok")
+	}
 
 	// decoder inputs
 	dec := &decoder{r: r, iso: &vp.Isolate{}}
